@@ -329,6 +329,60 @@ fn enum_oracle(sf: &SingleFault, obs: &mut Obs) -> CaseResult {
 }
 
 // ---------------------------------------------------------------------------------------
+// enumeration: one datagram is lost, then the network goes away for ever at an instant of a grid
+// (a receiver that knows the final size but still has a gap, a writer waiting for the last
+// acknowledgement, ... must all fail within the idle timeout)
+
+#[derive(Clone, Debug, Hash, PartialEq, Eq, Serialize, Deserialize)]
+pub struct DropThenSilence {
+    /// index of the lost datagram (both directions, send order) of exchange 0
+    pub k: u32,
+    /// the network blackholes for ever at this instant
+    pub at_us: u32,
+}
+
+const SILENCE_GRID: u64 = 24;
+
+/// (datagrams, duration in us) of the fault-free run of exchange 0
+fn silence_base() -> (u32, u64) {
+    static N: OnceLock<(u32, u64)> = OnceLock::new();
+    *N.get_or_init(|| {
+        let out = sim::run(&exchange(0), false).expect("fault-free exchange panicked");
+        ((out.net.sent[0] + out.net.sent[1]) as u32, out.end_us.max(1))
+    })
+}
+
+fn silence_total(tier: Tier) -> u64 {
+    let (n, _) = silence_base();
+    // quick: every second datagram
+    (n as u64).div_ceil(tier.pick(2, 1)) * SILENCE_GRID
+}
+
+fn silence_case(tier: Tier, idx: u64) -> DropThenSilence {
+    let (_, dur) = silence_base();
+    let step = tier.pick(2u64, 1);
+    let k = (idx / SILENCE_GRID) * step;
+    let g = idx % SILENCE_GRID;
+    // instants on a geometric grid from 50 us to ~50 ms of virtual time (the fault-free exchange takes a few milliseconds)
+    let _ = dur;
+    let mut at = 50u64;
+    for _ in 0..g {
+        at = at * 27 / 20;
+    }
+    DropThenSilence { k: k as u32, at_us: at as u32 }
+}
+
+fn silence_oracle(c: &DropThenSilence, obs: &mut Obs) -> CaseResult {
+    let mut case = exchange(0);
+    case.net.single = Some((c.k, Fault::Drop));
+    case.loss = Some(crate::case::PeerLoss { at_us: c.at_us, kind: crate::case::LossKind::Blackhole });
+    let out = run_sim(&case)?;
+    classes(&case, &out, obs);
+    obs.nontrivial((c.k as u64) < out.net.sent[0] + out.net.sent[1]);
+    oracle::judge(&case, &out, obs)
+}
+
+// ---------------------------------------------------------------------------------------
 // enumeration: a stream-space packet and its first retransmission(s) are lost, in dialogues
 
 #[derive(Clone, Debug, Hash, PartialEq, Eq, Serialize, Deserialize)]
@@ -445,6 +499,12 @@ pub fn subs() -> Vec<Box<dyn SubCheck>> {
             total: enum_total,
             case: enum_case,
             oracle: enum_oracle,
+        }),
+        Box::new(EnumCheck::<DropThenSilence> {
+            name: "udp_drop_then_silence_enum",
+            total: silence_total,
+            case: silence_case,
+            oracle: silence_oracle,
         }),
         Box::new(EnumCheck::<RetxPair> {
             name: "udp_retx_pair_enum",
